@@ -1016,7 +1016,8 @@ class Sandbox:
         """
         Queues the given value as the next arguments to the `input` function.
         """
-        if inputs is None:
+        if inputs is None or not isinstance(self.inputs, list):
+            # Also when the current source of inputs is a function: it cannot be cleared or extended
             self.inputs = []
         if clear:
             self.inputs.clear()
